@@ -30,7 +30,7 @@ CLAIMED = {
             "float()/IEEE scaling, strptime/timedelta of the first-point time and numpy timedelta arithmetic are contracts (evaluated exactly by the harness)", "7 C04"),
     "C12": ("Lean theorems documented_trees_well_typed / image_group_well_typed (any n) / metadata_well_typed + leader_trees_well_typed (the whole documented /metadata tree, any counts and designator class) / typing_is_shape_only, declared_shape (from pixel_fidelity), real_dtypes (re-read from source); oracle over dtype/shape/nbytes/repr/attribute types/selection shapes",
             "numpy's dtype inference of python lists is third-party", "7 C12"),
-    "C13": ("Lean theorems imagery_children (no image dropped or swapped when names are distinct), name_collision, group_names_injective, roles_independent_of_line_order (permutation invariance), metadata_children (for every leader file: /metadata has exactly the record groups present in the leader, map_projection iff the file holds such a record), product_tree (model of the whole io.open: every successful open is assembled from exactly the documented pieces - summary, root attributes, /metadata, one image group per image file in summary order), root_children; whole-product correspondence (intact and damaged products) against the real io.open; oracle over 1-8 images x polarisation x scan x summary line order, uncached and through a freshly created cache: node paths and order, per-group pixel identity with the right file, attributes",
+    "C13": ("Lean theorems imagery_children (no image dropped or swapped when names are distinct), name_collision, group_names_injective, roles_independent_of_line_order (permutation invariance), metadata_children (for every leader file: /metadata has exactly the record groups present in the leader, map_projection iff the file holds such a record), product_tree (model of the whole io.open: every successful open is assembled from exactly the documented pieces - summary, root attributes, /metadata, one image group per image file in summary order), coordinates_promoted (name-level model of to_dataset / decode_coords, tied by correspondence), root_children; whole-product correspondence (intact and damaged products) against the real io.open; oracle over 1-8 images x polarisation x scan x summary line order, uncached and through a freshly created cache: node paths and order, per-group pixel identity with the right file, attributes",
             "DataTree.from_dict / set_coords are xarray's", "7 C13"),
     "C14": ("Lean theorems line_sound / line_complete (exact line grammar incl. lazy matching, values with = and quotes), errors_exact, crlf, perm_invariant on the regex regenerated from CPython's own AST; summary correspondence; whole-product oracle with permuted/CRLF/corrupted summaries",
             "the backtracking matcher model is tied to CPython's re by correspondence", "7 C14"),
